@@ -1,7 +1,7 @@
 //! `tbh run`: one whole-world run of `torrent_bootstrap::start()` under the fs controller.
 //!
 //!   tbh run --export <dir> [--scan <dir>]... [--torrent <file>]... [--threads n] [--resize]
-//!           [--fault i]... [--crash k,j]
+//!           [--fault i]... [--crash k,j] [--sched seed]
 //!
 //! The world (directories, files, hard links, .torrent files) is laid out on disk by the driver beforehand.
 //! stdout carries the tool's own progress lines, then the controller's log (`LOG ...`), the load results
@@ -20,6 +20,7 @@ pub fn main(args: &[String]) -> i32 {
     let mut threads = 1usize;
     let mut resize = false;
     let mut config = ctl::Config::default();
+    let mut sched_seed: Option<u64> = None;
     let mut i = 0;
     while i < args.len() {
         match args[i].as_str() {
@@ -29,6 +30,7 @@ pub fn main(args: &[String]) -> i32 {
             "--threads" => { threads = args[i + 1].parse().unwrap(); i += 2; }
             "--resize" => { resize = true; i += 1; }
             "--fault" => { config.faults.push(args[i + 1].parse().unwrap()); i += 2; }
+            "--sched" => { sched_seed = Some(args[i + 1].parse().unwrap()); i += 2; }
             "--crash" => {
                 let mut it = args[i + 1].split(',');
                 let k: usize = it.next().unwrap().parse().unwrap();
@@ -60,8 +62,13 @@ pub fn main(args: &[String]) -> i32 {
     };
 
     ctl::install(config);
+    if let Some(seed) = sched_seed {
+        // deterministic scheduling of the executor: one worker runs at a time, decisions are logged
+        torrent_bootstrap::verif_shim::sync::sched::install(seed);
+    }
     std::panic::set_hook(Box::new(|info| { eprintln!("PANIC {}", info); }));
     let result = catch_unwind(AssertUnwindSafe(|| torrent_bootstrap::start(options)));
+    torrent_bootstrap::verif_shim::sync::sched::uninstall();
     let log = ctl::uninstall();
     for line in &log {
         println!("LOG {}", line);
